@@ -45,6 +45,9 @@ type c19Case struct {
 	// capacity; a sibling executor (client) is given the same slice plus a foreign stage, and the caller then goes on
 	// using its slice (appends the foreign stage, overwrites the first element). None of that may reach this chain.
 	SharedList int `json:"stages_registered_from_one_shared_slice,omitempty"`
+	// ClosedTransport (client chain): the client is closed before the requests are made: the transport, innermost in the
+	// chain, answers every execution with "closed"; the stages still run around it exactly as their programs say
+	ClosedTransport bool `json:"client_closed_before_requests,omitempty"`
 }
 
 // registerStages hands the stages to an executor: one Use call per stage, or (SharedList) the first ones through a
@@ -118,12 +121,16 @@ func (r modelRes) String() string {
 }
 
 type model struct {
+	closed bool // the core answers every execution with the closed-connection error
 	progs  []stageProg
 	events []string
 	cores  int
 }
 
 func (m *model) run(stage int, msg string, marks []string) modelRes {
+	if stage == len(m.progs) && m.closed {
+		return modelRes{err: net.ErrClosed.Error()}
+	}
 	if stage == len(m.progs) {
 		n := m.cores
 		m.cores++
@@ -469,6 +476,9 @@ func runClient(c c19Case) (traces [][]string, finals []modelRes, coreLogs [][]st
 		defer clone.Close()
 		cl = clone
 	}
+	if c.ClosedTransport {
+		_ = cl.Close()
+	}
 	traces = make([][]string, c.Requests)
 	finals = make([]modelRes, c.Requests)
 	var wg sync.WaitGroup
@@ -507,7 +517,7 @@ func c19Run(c c19Case) (sig string, err error) {
 			for r := range outs {
 				// merge: the client-side trace has no core events (the transport is remote); compare them separately
 				outs[r] = outcome{traces[r], finals[r]}
-				m := &model{progs: c.Stages}
+				m := &model{progs: c.Stages, closed: c.ClosedTransport}
 				m.run(0, fmt.Sprintf("r%d", r), nil)
 				var wantCores []string
 				for _, e := range m.events {
@@ -555,7 +565,7 @@ func c19Run(c c19Case) (sig string, err error) {
 		return "chain-panics:" + c.Chain, perr
 	}
 	for r := range outs {
-		m := &model{progs: c.Stages}
+		m := &model{progs: c.Stages, closed: c.ClosedTransport}
 		want := m.run(0, fmt.Sprintf("r%d", r), nil)
 		wantEvents := m.events
 		if c.Chain == "client" {
@@ -630,6 +640,7 @@ func TestC19Chains(t *testing.T) {
 		c := c19Case{Chain: rapid.SampledFrom([]string{"client", "server-message", "server-item"}).Draw(rt, "chain"), Requests: rapid.IntRange(1, 4).Draw(rt, "requests")}
 		if c.Chain == "client" {
 			c.Clone = rapid.IntRange(0, 2).Draw(rt, "clone") == 0
+			c.ClosedTransport = rapid.IntRange(0, 4).Draw(rt, "closed") == 0
 		}
 		n := rapid.IntRange(0, 4).Draw(rt, "stages")
 		c.PreServe = -1
